@@ -8,7 +8,7 @@ and exponents; every output is compared with the plain group (oracle); for QR / 
 Coq model of the public-base protocol is evaluated on the parties' actual exponent shares and must
 reproduce the implementation's output exactly — including the wrong ones (F-C28).
 """
-import sys, logging
+import sys, logging, asyncio
 import pickle as _pickle
 from lib.core import zlit, zlist, blit
 from lib.sim import Sim
@@ -27,7 +27,11 @@ MANIFEST = {
             'exponent bits and compared exactly with the implementation output. Aliasing stream: every list-taking '
             'operation (repeat_public with list bases/exponents, output/input/mpctools.reduce of lists of secure group '
             'elements; repeat with lists is rejected synchronously) is called, the caller\'s lists are mutated in place '
-            '(reverse/overwrite/del/append), then awaited; expected = plain result for the arguments at call time.',
+            '(reverse/overwrite/del/append), then awaited; expected = plain result for the arguments at call time. Concurrency stream (m=3,t=1): repeat with public and '
+            'secret bases and shared exponents, @, ~, if_else, == and inputs from non-zero senders are LAUNCHED without '
+            'awaiting, every party yields to its event loop a different number of times, 10-30 unrelated secure '
+            'multiplications are issued and awaited, under RandomOrder / Hold / ReverseLinks / Fifo schedules re-armed per '
+            'case; all parties must finish within a rounds budget (fresh simulator after a failure) and match the plain group.',
     'note': 'Value/share-level model: group elements are abstract (operation/inversion/equality formulas on secure field '
             'coordinates are the plain fingroups formulas run on secure values — C27 for the formulas, C04 for the field '
             'protocols; not re-modelled here, covered by the simulator oracle). mpctools.reduce (tree) is modelled as a fold '
@@ -347,6 +351,137 @@ def make_alias_prog(spec):
     return prog
 
 
+def make_conc_prog(spec, case):
+    """Concurrency stream: secure group operations are LAUNCHED without awaiting, then 10-30 unrelated secure
+    multiplications are issued and awaited, then the launched results are output.  spec = group family or ('cl', D)."""
+    async def prog(mpc, mods, pid):
+        fg = mods['mpyc.fingroups']
+        mods['mpyc.runtime'].pickle = PickleShim(mods)
+        m = len(mpc.parties)
+        if spec[0] == 'cl':
+            G = fg.ClassGroup(Delta=spec[1])
+            fs = reduced_forms(spec[1])
+            g, h = G(fs[-1]), G(fs[len(fs) // 2])
+            cyc, cord = g, len(fs)
+        else:
+            G = mkgroup(fg, spec)
+            g, h, cyc, cord = elements(G, spec)
+        secgrp = mpc.SecGrp(G)
+        ident = G.identity
+        secint = mpc.SecInt(16)
+        out = []
+        k1, k2, k3 = case['senders']
+        # fresh inputs from NON-ZERO senders, not awaited
+        a = mpc.input(secgrp(g if pid == k1 else ident), senders=k1)
+        b = mpc.input(secgrp(h if pid == k2 else ident), senders=k2)
+        launched = []
+        if 'pubbase' in case['ops']:
+            st = mpc.SecFld(cord)
+            e = case['e'] % cord
+            x = mpc.input(st(e if pid == k3 else 0), senders=k3)
+            launched.append(('repeat public-base shared-secfld-exponent x=%d' % e, secgrp.repeat(cyc, x), cyc ^ e))
+        if 'secbase' in case['ops']:
+            st3 = mpc.SecInt(3)
+            e3 = case['e'] % 8
+            x3 = mpc.input(st3(e3 if pid == k1 else 0), senders=k1)
+            launched.append(('repeat secret-base shared-secint-exponent x=%d' % e3, secgrp.repeat(a, x3), g ^ e3))
+        if 'op' in case['ops']:
+            launched.append(('a@b', a @ b, g @ h))
+            launched.append(('~b', ~b, ~h))
+        if 'if_else' in case['ops']:
+            c = mpc.input(secgrp.sectype(case['c'] if pid == k2 else 0), senders=k2)
+            launched.append(('if_else(%d,a,b)' % case['c'], secgrp.if_else(c, a, b), g if case['c'] else h))
+        eqs = []
+        if 'eq' in case['ops']:
+            eqs = [('a==b', a == b, int(g == h)), ('a==a', a == a, 1)]
+        # local scheduling differences: each party yields to its event loop a different number of times right after
+        # launching (the sender's pending coroutines may run before it issues the unrelated work, the others' after)
+        for _ in range(case['yields'][pid]):
+            await asyncio.sleep(0)
+        # unrelated secure work, issued and awaited by all parties in the same order
+        for j in range(case['nmul']):
+            if j == case['nmul'] // 2:
+                for _ in range(case['yields'][(pid + 1) % m]):
+                    await asyncio.sleep(0)
+            y = mpc.input(secint(pid + j + 2))
+            z = y[0] * y[-1] + j
+            v = await mpc.output(z)
+            out.append(('unrelated mul %d' % j, int(v) == (j + 2) * (j + m + 1) + j, int(v), (j + 2) * (j + m + 1) + j))
+        for lbl, r, want in launched:
+            got = await mpc.output(r)
+            out.append((lbl, bool(got == want), canon(got), canon(want)))
+        for lbl, r, want in eqs:
+            got = await mpc.output(r)
+            out.append((lbl, int(got) == want, int(got), want))
+        return {'out': out}
+    return prog
+
+
+def concurrency_stream(ctx, counters):
+    import random as _random
+    from lib.sim import RandomOrder, ReverseLinks, Hold, Fifo
+    rng = ctx.rng
+    m, t = 3, 1
+    names = ['RandomOrder', 'Hold', 'ReverseLinks', 'Fifo']
+
+    def policy(k):
+        nm = names[k % len(names)]
+        if nm == 'RandomOrder':
+            return RandomOrder(_random.Random(ctx.seed * 7907 + 5 + k))
+        if nm == 'ReverseLinks':
+            return ReverseLinks()
+        if nm == 'Hold':
+            return Hold({(0, 1), (2, 0), (1, 2)}, 40)
+        return Fifo()
+    plan = []
+    for spec, n in ((('qr', 16), ctx.n(4, 12)), (('sg', 32, 16), ctx.n(3, 12)), (('sym', 4), ctx.n(2, 6)),
+                    (('ec', 'Ed25519', 'extended'), ctx.n(1, 3)), (('cl', -227), ctx.n(1, 3))):
+        for i in range(n):
+            heavy = spec[0] in ('ec', 'cl')
+            ops = ['pubbase', 'op', 'if_else', 'eq'] + ([] if heavy else ['secbase'])
+            if heavy:
+                ops = ['pubbase', 'op'] if spec[0] == 'ec' else ['op', 'if_else']
+            plan.append((spec, {'ops': ops, 'e': rng.randrange(1, 2 ** 12), 'c': rng.randrange(2), 'nmul': rng.randrange(10, 31),
+                                'senders': [rng.choice([1, 2]), rng.choice([1, 2]), rng.randrange(3)],
+                                'yields': rng.choice([[0, 4, 1], [5, 0, 2], [1, 2, 6], [3, 0, 0], [0, 0, 5]])}))
+    sim = None
+    nbad = 0
+    try:
+        for k, (spec, case) in enumerate(plan):
+            gname = '%s(%s)' % (spec[0], ','.join(map(str, spec[1:])))
+            pname = names[k % len(names)]
+            if sim is None:
+                sim = Sim(m=m, t=t, no_prss=bool(k % 2 and ctx.tier == 'thorough'), seed=ctx.seed + 311 + k, log_messages=False, track_tasks=False)
+                errs = []
+                sim.loop.set_exception_handler(lambda loop, c, errs=errs: errs.append(repr(c.get('exception') or c.get('message'))[:160]))
+                sim.start(Fifo())
+            del errs[:]
+            res = sim.run(make_conc_prog(spec, case), policy(k), idle_limit=4000, max_rounds=ctx.n(1500000, 6000000))
+            key = {'concurrent': case, 'group': gname, 'policy': pname}
+            ctx.case(key, kind='concurrent m=3 ' + pname)
+            counters['conc'] += 1
+            if not all(isinstance(r, dict) for r in res):
+                nbad += 1
+                ctx.violation('concurrent did-not-complete %s ops=%s policy=%s' % (gname, '+'.join(case['ops']), pname),
+                              {'case': case, 'group': gname, 'policy': pname, 'results': [repr(r)[:160] for r in res],
+                               'loop_errors': [e for e in errs if 'CancelledError' not in e][:3], 'rounds': getattr(sim, 'rounds', None)})
+                sim.close()
+                sim = None                       # fresh simulator after a hang
+                continue
+            bad = [(pid, lbl, got, want) for pid, r in enumerate(res) for (lbl, okv, got, want) in r['out'] if not okv]
+            if bad:
+                nbad += 1
+                ctx.violation('concurrent wrong-result %s op=%s policy=%s' % (gname, bad[0][1].split(' x=')[0], pname),
+                              {'case': case, 'group': gname, 'policy': pname, 'bad': [list(map(str, b)) for b in bad[:6]]})
+                sim.close()
+                sim = None                       # state may be corrupted (mismatched program counters)
+    finally:
+        if sim is not None:
+            sim.close()
+    ctx.extra['concurrent_cases_m3'] = len(plan)
+    ctx.log('concurrency stream m=3: %d cases, %d bad' % (len(plan), nbad))
+
+
 def lagrange_at_zero(P, m):
     lams = []
     for i in range(1, m + 1):
@@ -568,6 +703,8 @@ def _run(ctx):
                         ctx.violation(sig, {'cfg': cfg, 'group': gname, 'op': lbl, 'party': pid, 'got': got, 'want': want})
         ctx.log('class groups %s: %d outputs checked so far' % (cfg, ncl))
     ctx.extra['classgroup_outputs_checked'] = ncl
+    counters = {'conc': 0}
+    concurrency_stream(ctx, counters)
     ctx.extra['implementation_outputs_checked'] = nout
     ctx.extra['aliasing_cases'] = nalias
     for nt in sorted(alias_notes):
